@@ -7,6 +7,9 @@ From Coq Require Import ZArith List.
 From Pnc Require Import Proofs_Access.
 From Pnc Require Import Proofs_CheckScs.
 From Pnc Require Import Proofs_RoundTrip.
+From Pnc Require Import CSub.
+From Pnc Require Import Gen_scs.
+From Pnc Require Import Proofs_GenScs.
 Set Printing Width 100.
 Set Printing Depth 100000.
 
@@ -200,3 +203,71 @@ Theorem C15_put_frame :
            x = Disk.dk_get d x.
 Proof. exact @put_frame. Qed.
 Print Assumptions C15_put_frame.
+
+(* the dispatcher's C functions, as translated from var_getput.c as built on this run (Gen_scs.v, tools/tr_cfun.py), against the hand-written model of Access.v: check_EINVALCOORDS *)
+Theorem C15_gen_check_EINVALCOORDS_eq :
+  forall sc s c sh : Z,
+         check_EINVALCOORDS_c sc s c sh = FVal (Access.check_EINVALCOORDS (z2b sc) s c sh).
+Proof. exact @gen_check_EINVALCOORDS_eq. Qed.
+Print Assumptions C15_gen_check_EINVALCOORDS_eq.
+
+(* check_EEDGE, where its MPI_Offset arithmetic does not overflow *)
+Theorem C15_gen_check_EEDGE_eq :
+  forall (ps pc pt psh : c_ptr Z) (s c : Z) (t : option Z) (sh : Z),
+         p_ok ps 0 = true ->
+         p_get 0%Z ps 0 = s ->
+         p_ok pc 0 = true ->
+         p_get 0%Z pc 0 = c ->
+         p_ok psh 0 = true ->
+         p_get 0%Z psh 0 = sh ->
+         ptr_at pt t ->
+         edge_arith_ok s c t -> check_EEDGE_c ps pc pt psh = FVal (Access.check_EEDGE s c t sh).
+Proof. exact @gen_check_EEDGE_eq. Qed.
+Print Assumptions C15_gen_check_EEDGE_eq.
+
+(* check_start_count_stride = Access.check_scs for all arguments satisfying the guards the C code relies on (array lengths, classic format, no overflow in check_EEDGE) *)
+Theorem C15_gen_check_scs_eq :
+  forall (pncp : c_PNC) (varid isr : Z) (kind : Access.apikind) (recdim : Z) 
+           (shape : list Z) (numrecs : Z) (st : list Z) (count stride : option (list Z)),
+         p_ok (PNC__vars pncp) varid = true ->
+         p_get c_PNC_var_default (PNC__vars pncp) varid = c_pvar recdim shape ->
+         In (PNC__format pncp) (1%Z :: 2%Z :: 5%Z :: nil) ->
+         scs_lengths shape st count stride ->
+         (Base.Zlen shape <= 2147483647)%Z ->
+         scs_arith_ok st count stride ->
+         check_start_count_stride_c pncp varid isr (kind_code kind) (Some (st, 0%Z)) 
+           (c_arr count) (c_arr stride) Gen_consts.NC_NOERR numrecs =
+         FVal
+           (Access.check_scs (PNC__format pncp) (z2b (Z.land (PNC__flag pncp) NC_STRICT))
+              (recdim >=? 0)%Z (z2b isr) kind shape numrecs (Some st) count stride).
+Proof. exact @gen_check_scs_eq. Qed.
+Print Assumptions C15_gen_check_scs_eq.
+
+Theorem C15_gen_check_scs_null_start :
+  forall (pncp : c_PNC) (varid isr kz recdim : Z) (shape : list Z) 
+           (numrecs : Z) (pcount pstride : c_ptr Z),
+         p_ok (PNC__vars pncp) varid = true ->
+         p_get c_PNC_var_default (PNC__vars pncp) varid = c_pvar recdim shape ->
+         shape <> nil ->
+         check_start_count_stride_c pncp varid isr kz None pcount pstride Gen_consts.NC_NOERR numrecs =
+         FVal Gen_consts.NC_EINVALCOORDS.
+Proof. exact @gen_check_scs_null_start. Qed.
+Print Assumptions C15_gen_check_scs_null_start.
+
+Theorem C15_gen_check_scs_inq_error :
+  forall (pncp : c_PNC) (varid isr kz recdim : Z) (shape : list Z)
+           (pstart pcount pstride : c_ptr Z) (xret xout : Z),
+         p_ok (PNC__vars pncp) varid = true ->
+         p_get c_PNC_var_default (PNC__vars pncp) varid = c_pvar recdim shape ->
+         shape <> nil ->
+         (0 <= recdim)%Z ->
+         xret <> Gen_consts.NC_NOERR ->
+         check_start_count_stride_c pncp varid isr kz pstart pcount pstride xret xout = FVal xret.
+Proof. exact @gen_check_scs_inq_error. Qed.
+Print Assumptions C15_gen_check_scs_inq_error.
+
+(* the translator met no construct outside its subset *)
+Theorem C15_gen_scs_subset_complete :
+  tr_cfun_unsupported = nil.
+Proof. exact @gen_scs_subset_complete. Qed.
+Print Assumptions C15_gen_scs_subset_complete.
